@@ -363,7 +363,8 @@ def random_ann(rng, ncls, abstract_ids, all_ids, depth, o):
         return ("ann", "str", ("varRange", [rng.choice(["x", "y", "z", "w"]) for _ in range(rng.randint(1, 3))]))
     if k == 3:
         lo = rng.randint(0, 2)
-        inner = random_type(rng, ncls, abstract_ids, all_ids, 2, o)
+        # the element type is mostly a class, sometimes itself a base, list, tuple or refined type
+        inner = random_type(rng, ncls, abstract_ids, all_ids, 2 if rng.random() < 0.6 else 1, o)
         return ("ann", ("list", inner), ("listSize", lo, lo + rng.randint(0, 2)))
     if k == 4:
         lo = rng.randint(0, 2)
